@@ -25,7 +25,7 @@ PROP = "C18"
 
 
 def gen_case(rng, tier):
-    kern = rng.choice(["mh", "mh", "mala", "hmc", "composite", "deterministic"])
+    kern = rng.choice(["mh", "mh", "mala", "hmc", "composite", "deterministic", "sweeps", "sweeps"])
     dists = progs.CONT_REAL_LINE if kern in ("mala", "hmc", "deterministic") else progs.CONT_REAL_LINE + ["flip", "gamma"]
     c = gfi.gen_model_case(rng, tier, depth=rng.choice([0, 0, 1]), dists=dists, max_blocks=2,
                            kinds=["site", "call", "vsite", "scan"])
@@ -61,6 +61,10 @@ def make_kernel(case, gf):
             save(another=jnp.float32(1.5))
             return tr
         return kern
+    if k == "sweeps":
+        # K mh sweeps per chain step in an inner loop: every save() sits inside the inner scan
+        K = case["L"] + 1
+        return lambda tr: jax.lax.fori_loop(0, K, lambda i, t: mh(t, s1), tr)
     if k == "deterministic":
         def kern(tr):
             # shifts every float choice by +1; "accepts" on odd visits: closed-form history
@@ -141,9 +145,10 @@ def run_case(case):
                                       f"retained state {j} (chain {c}) is not the state after step {i + 1} of the folded kernel "
                                       f"(n={N}, burn_in={B}, thin={T})", **sig))
                         break
-                    if bool(lane(res.accepts)[j]) != bool(accs[i]):
+                    a_got, a_want = np.asarray(lane(res.accepts)[j]), (None if accs[i] is None else np.asarray(accs[i]))
+                    if a_want is None or a_got.shape != a_want.shape or not np.array_equal(a_got.astype(bool), a_want.astype(bool)):
                         viol.append(V("wrong_diagnostics", "accepts_are_those_of_retained_steps",
-                                      f"accepts[{j}]={bool(lane(res.accepts)[j])} but step {i + 1} saved accept={bool(accs[i])}", **sig))
+                                      f"accepts[{j}]={a_got.tolist()} but step {i + 1} saved accept={None if a_want is None else a_want.tolist()}", **sig))
                         break
             if case["kernel"] == "deterministic" and not viol:
                 first0 = float(np.ravel(np.asarray(jtu.tree_leaves(tr0.get_choices())[0]))[0])
@@ -183,16 +188,24 @@ def structural(res, case, idx, sig):
             viol.append(V("wrong_shape", "leading_axes_chain_then_step",
                           f"trace leaf has shape {np.shape(l)}, expected leading axes {lead}", **sig))
             break
-    if tuple(np.shape(res.accepts)) != lead:
-        viol.append(V("wrong_shape", "accepts_shape", f"accepts shape {np.shape(res.accepts)} expected {lead}", **sig))
+    extra = (case["L"] + 1,) if case["kernel"] == "sweeps" else ()
+    if tuple(np.shape(res.accepts)) != lead + extra:
+        viol.append(V("wrong_shape", "accepts_shape", f"accepts shape {np.shape(res.accepts)} expected {lead + extra}", **sig))
     elif n_ret and not world.close(float(res.acceptance_rate), float(np.mean(np.asarray(res.accepts, dtype=np.float64))), 1e-5, 1e-6):
         viol.append(V("wrong_diagnostics", "acceptance_rate_is_mean_of_accepts",
                       f"acceptance_rate={float(res.acceptance_rate)} mean(accepts)={float(np.mean(np.asarray(res.accepts)))}", **sig))
     if C > 1 and case["kernel"] != "deterministic" and n_ret:
-        # chains use independent randomness: continuous leaves must differ between chains
-        fl = [np.asarray(l) for l in jtu.tree_leaves(res.traces.get_choices()) if np.asarray(l).dtype.kind == "f"]
-        if fl and all(np.array_equal(l[0], l[1]) for l in fl) and bool(np.any(np.asarray(res.accepts))):
-            viol.append(V("shared_randomness", "chains_independent", "chains 0 and 1 visited identical states", **sig))
+        # chains use independent randomness: a selected continuous leaf that moved in both chains differs
+        acc = np.asarray(res.accepts).reshape(C, -1)
+        if bool(acc[0].any()) and bool(acc[1].any()):
+            paths = [tuple(p) for p in ref.model_paths(case["model"])]
+            S = [p for p in paths if selections.selected(p, case["sel"])]
+            ch = gfi.np_choices(res.traces)
+            cont = [p for p in S if {progs.DISTS[d]["kind"] for d, _ in ref.path_info(case["model"], p)} == {"c"}
+                    and ref.get_path(ch, p) is not None]
+            if cont and all(np.array_equal(np.asarray(ref.get_path(ch, p))[0], np.asarray(ref.get_path(ch, p))[1]) for p in cont):
+                viol.append(V("shared_randomness", "chains_independent",
+                              "chains 0 and 1 both accepted moves but hold identical values at every selected continuous address", **sig))
     return viol
 
 
